@@ -220,6 +220,24 @@ theorem Agree.movingStd {x : Nat → Nat → ℝ} {e : Sig ℝ} {P : PS ℝ} (p 
 
 end Sig
 
+namespace Sig
+open Ind ArithReal
+/-- helper.Count(1, c): 1, 2, 3, … — one value per element of `c` -/
+theorem Agree.countOne {x : Nat → Nat → ℝ} {e : Sig ℝ} {P : PS ℝ} (h : Agree x e P) :
+    Agree x (Ind.count Ind.one e) ⟨P.start, fun i => ((i - P.start + 1 : ℕ) : ℝ)⟩ := by
+  have hoff := h.offD
+  constructor
+  · simp [Ind.count, off, h.1]
+  · intro i hi
+    simp only [Ind.count, den, hoff, scanOut]
+    have key : ∀ m, scanSt (fun (i : ℝ) (_ : ℝ) => (i + Ind.one, i)) Ind.one (fun m => den x e (P.start + m)) m = ((m + 1 : ℕ) : ℝ) := by
+      intro m
+      induction m with
+      | zero => simp [scanSt, Ind.one]
+      | succ m ih => simp only [scanSt, ih]; simp [Ind.one]
+    rw [key]
+end Sig
+
 namespace Ind
 theorem halfRound_pos (p : Nat) (hp : 1 ≤ p) : 1 ≤ halfRound p := by unfold halfRound; omega
 theorem halfRound_le (p : Nat) (hp : 1 ≤ p) : halfRound p ≤ p := by unfold halfRound; omega
